@@ -89,3 +89,24 @@ Lemma tab2_spent n g o f x : tab2 n (spent o f x (fn2 (tab2 n g))) = tab2 n (spe
 Proof.
   apply tab2_ext. intros o' s' Ho Hs. unfold spent. rewrite fn2_tab2 by assumption. reflexivity.
 Qed.
+
+(* ---------- the model's observations are well shaped ---------- *)
+Lemma univ_length n : N.of_nat (length (univ n)) = n.
+Proof. unfold univ. rewrite map_length, seq_length. apply N2Nat.id. Qed.
+Lemma len_is_map {A B} n (f : A -> B) l : len_is n (map f l) = len_is n l.
+Proof. unfold len_is. rewrite map_length. reflexivity. Qed.
+Lemma len_is_univ n : len_is n (univ n) = true.
+Proof. unfold len_is. rewrite univ_length. apply N.eqb_refl. Qed.
+Lemma tab2_rows n g : forallb (len_is n) (tab2 n g) = true.
+Proof.
+  unfold tab2. apply forallb_forall. intros r Hr. apply in_map_iff in Hr. destruct Hr as (o & <- & _).
+  rewrite len_is_map. apply len_is_univ.
+Qed.
+Lemma obs_shape_observe c n s : obs_shape n (observe c n s) = true.
+Proof.
+  unfold obs_shape. cbn [observe o_ab o_sb o_aal o_sal].
+  rewrite !len_is_map, len_is_univ. cbn [andb].
+  change (map (fun o => map (allowance (now s) (asset s) o) (univ n)) (univ n)) with (tab2 n (allowance (now s) (asset s))).
+  change (map (fun o => map (allowance (now s) (share s) o) (univ n)) (univ n)) with (tab2 n (allowance (now s) (share s))).
+  rewrite !tab2_rows. reflexivity.
+Qed.
